@@ -72,6 +72,7 @@ pub fn shared_stream_spaces(ctx: &Ctx, st: &mut Local, f: Sink) {
     }
     e2_blockspace(ctx, "E2", st, f);
     e2_padspace(ctx, "E2p", st, f);
+    e2_crossblock(ctx, "E2s", st, f);
     e3_dynspace(ctx, "E3", st, f);
     e5_devspace(ctx, "E5", &dev_specs(ctx), st, f);
     // one reference per stream at the length / distance boundaries
